@@ -1,41 +1,11 @@
+import GeffProps.C17
 import GeffProofs.DataframeGen
-open Geff.Dataframe Geff.PyDoDf GeffProofs.DataframeGen
-set_option pp.proofs false
-example {α} (g : InMemGeff α) : Gen.Dataframe.geffToDataframes g = Res.valueError := by
-  unfold Gen.Dataframe.geffToDataframes
-  simp only [readToMemory, bind_ok, List.forIn_cons, List.forIn_nil, pairCol]
-  simp only [show ("node" == "node") = true from by decide, show ("edge" == "node") = false from by decide, if_true, ite_false, Bool.false_eq_true, bind_ok]
-  rw [props_loop "node"]
-  rotate_left
-  · intro p ws d
-    simp only [reshape_squeeze, bind_ok]
-    unfold stepSpec addProp
-    obtain ⟨name, trail, rows, missing⟩ := p
-    simp only [propMissing]
-    rcases hsq : squeezeTrail trail with _ | ⟨k, _ | ⟨k2, rest⟩⟩
-    · simp only [pdSeries]
-      cases hc : colAt 0 rows with
-      | none => simp
-      | some col =>
-        cases missing with
-        | none => simp [mkSeries, anyOpt]
-        | some m =>
-          by_cases hany : m.any id = true <;> by_cases hlen : m.length = col.length <;>
-            simp [mkSeries, anyOpt, seriesMask, maskSeries_map_val, hany, hlen]
-    · simp only [shapeAt, List.range_eq_range']
-      simp
-      rw [cols_loop ⟨name, trail, rows, missing⟩]
-      · cases addCols2 ⟨name, trail, rows, missing⟩ 0 k d <;> simp [lift]
-      · intro i d
-        unfold colStep
-        simp only [sliceCol, pdSeries1]
-        cases hc : colAt i rows with
-        | none => simp
-        | some col =>
-          cases missing with
-          | none => simp [mkSeries, anyOpt, subName]
-          | some m =>
-            by_cases hany : m.any id = true <;> by_cases hlen : m.length = col.length <;>
-              simp [mkSeries, anyOpt, seriesMask, maskSeries_map_val, hany, hlen, subName]
-    · simp [renderWarn]
-  sorry
+open Geff.Dataframe Geff.PyDoDf GeffProofs.DataframeGen GeffProps.C17
+set_option synthInstance.maxSize 512 in
+#synth DecidableEq (List (Dict Nat) × List String)
+set_option synthInstance.maxHeartbeats 200000 in
+#synth DecidableEq (List (Dict Nat) × List String)
+instance foo {α} [DecidableEq α] : DecidableEq (List (Dict α) × List String) :=
+  @instDecidableEqProd _ _ (inferInstanceAs (DecidableEq (List (Dict α)))) inferInstance
+example : Gen.Dataframe.geffToDataframes GeffProps.C17.collide =
+      .ok ([[("id", [Cell.val 9, Cell.val 9])], [("source", [Cell.val 1]), ("target", [Cell.val 2])]], []) := by decide
